@@ -114,6 +114,32 @@ fn then_marks_at_least_plus_one() {
     core::mem::forget(nb);
 }
 
+fn is_in_order(m: &PatternMatchMode) -> bool {
+    matches!(m, PatternMatchMode::InOrder)
+}
+
+/// MockFn::{some_call, each_call, next_call} (C04, C14, C01): the clause entry points start from a FRESH builder (no responder,
+/// running index 0, expectation (0, AtLeast)) whose match mode is the one the name says: only next_call is ordered - so only
+/// next_call clauses ever take slots of the global ordered sequence (new_call_pattern's contract).
+//@K props=C04,C14,C01 tier=quick label=full feat=std fn=MockFn::some_call,MockFn::each_call,MockFn::next_call
+#[kani::proof]
+#[kani::unwind(3)]
+fn clause_entry_points_set_the_match_mode() {
+    let which: u8 = kani::any();
+    kani::assume(which < 3);
+    let nb = match which {
+        0 => F8.some_call(&|_m| {}).wrapper.into_owned(),
+        1 => F8.each_call(&|_m| {}).wrapper.into_owned(),
+        _ => F8.next_call(&|_m| {}).wrapper.into_owned(),
+    };
+    check_state(&nb, 0, 0, 1, 0);
+    assert!(is_in_order(&nb.pattern_match_mode) == (which == 2));
+    kani::cover!(which == 0);
+    kani::cover!(which == 1);
+    kani::cover!(which == 2);
+    core::mem::forget(nb);
+}
+
 /// The compile-time repetition marker of a QuantifiedResponse, read as a value: 0 = Exact (`.then()` is accepted by rustc),
 /// 1 = AtLeast (`.then()` is a type error).  C14: "then() can only follow an exact count" holds at compile time exactly when the
 /// three quantifiers hand out the marker that matches the count they record.
